@@ -463,6 +463,28 @@ fn main() {
         }
         t
     });
+    // D5: long coefficients far outside the f64 range in both directions (decimal exponents of the leading digit
+    // around +-1000, +-10^4, +-10^5, +-10^9 and the i32 limits): the result is +-0 / +-infinity, never None
+    let st5 = structured_ints(tier.pick(60, 120), 4, run.seed());
+    let far_e: Vec<i128> = vec![-999, -1000, -1001, -9999, -10000, -100000, -999999999, -1000000000, -2147483647, -2147483648, -2147483649, 999, 1000, 10000, 100000, 1000000000, 2147483647, 2147483648];
+    run.bound("D5_structured_integers", st5.len());
+    run.bound("D5_exponents", json!(far_e.iter().map(|e| e.to_string()).collect::<Vec<_>>()));
+    run.par("D5 long coefficients far outside the f64 range", st5.len(), |i| {
+        let mut t = Tally::default();
+        let l = ndigits(&st5[i]) as i128;
+        for &e in far_e.iter() {
+            for sign in [1, -1] {
+                let x = Dec { n: &st5[i] * sign, s: l - 1 - e };
+                t.states += 1;
+                t.transitions += 1;
+                t.nontrivial += 1;
+                if let Some(v) = check_to_f64(&lim, &x, e % 2 == 0) {
+                    run.report(v);
+                }
+            }
+        }
+        t
+    });
     let _ = BigInt::zero();
     run.finish();
 }
